@@ -31,6 +31,7 @@ ASSUMPTIONS = [
     "asyncio is cooperative: the sender seam is the only yield point, so release orders at that seam are the complete schedule space (threads are out of scope)",
     "SET targets live in a subtree no other operation reads, so 'alone' is well defined; the one exception is the pair getshared / setget, where the racing read may return the old or the new value and the read-back after the confirmed write must return the new one",
     "dropped datagrams stay below the default retry budget, so every operation succeeds when run alone",
+    "an AUTHENTICATED answer the engine gave before it restarted and that is delivered afterwards may be refused (RFC 3414 3.2 7b: its engine boots are older than what the client has learned meanwhile): that operation may end with an exception; unauthenticated discovery replies of the same age carry no such excuse",
 ]
 EXHAUSTIVE = lambda tier: ("all release/drop schedules of every pair%s from the fixed operation set, v2c and SNMPv3" % (
     " and every triple" if tier == "thorough" else " and selected triples"))
@@ -198,6 +199,9 @@ def run_schedule(case, choices, drops_per_op):
                 info["reboots_n"] = info.get("reboots_n", 0) + 1
                 for a in dict.fromkeys(map(id, agents)):
                     next(x for x in agents if id(x) == a).reboot()
+                for q in sched.pending:
+                    if "pre" in q:
+                        q["stale"] = True     # an answer the engine gave before it restarted, still in the network
                 continue
             if action == "answer_now_deliver_later":
                 info["stale_n"] = info.get("stale_n", 0) + 1
@@ -231,6 +235,15 @@ def run_schedule(case, choices, drops_per_op):
             try:
                 if "pre" in p:
                     kind, val = p["pre"]
+                    if p.get("stale") and kind == "ok" and p["op"] is not None:
+                        try:
+                            mm = vber.parse_message(val)
+                            if mm.get("version") == 3 and mm.get("flags", 0) & 1:
+                                # RFC 3414 3.2 7b: a non-authoritative engine that has meanwhile learned the new
+                                # snmpEngineBoots may (must) refuse an AUTHENTICATED message carrying the old one
+                                info.setdefault("stale_ops", []).append(p["op"])
+                        except vber.BerError:
+                            pass
                     if kind == "ok":
                         p["fut"].set_result(val)
                         continue
@@ -319,6 +332,8 @@ def judge(case, outcomes, info) -> Result:
             continue
         if out is None:
             return Result("%s: operation %d never finished" % (head, i), nontrivial, classes, key=key)
+        if i in info.get("stale_ops", []) and out is not None and out[0] == "exc" and out[1] != "AssertionError":
+            continue      # its authenticated answer dated from before the engine's restart: refusing it is legitimate
         if ops[i][1] == "getshared" and out == ("ok", ("OctetString", b"fresh")) and any(n == "setget" for _, n in ops):
             continue      # a read racing with the write of "setget" may see either value
         if out != a:
